@@ -516,7 +516,7 @@ class TypesOracle(walkers.DagWalker):
         return expanded
 
     @walkers.handles(set(op.ALL_TYPES) - \
-                     set([op.SYMBOL, op.FUNCTION]) -\
+                     set([op.SYMBOL, op.FUNCTION, op.ARRAY_VALUE]) -\
                      op.QUANTIFIERS - op.CONSTANTS)
     def walk_combine(self, formula: FNode, args: List[FrozenSet[PySMTType]], **kwargs) -> FrozenSet[PySMTType]:
         #pylint: disable=unused-argument
@@ -527,9 +527,15 @@ class TypesOracle(walkers.DagWalker):
         return frozenset([formula.symbol_type()])
 
     @walkers.handles(op.FUNCTION)
-    def walk_function(self, formula: FNode, **kwargs) -> FrozenSet[PySMTType]:
+    def walk_function(self, formula: FNode, args: List[FrozenSet[PySMTType]], **kwargs) -> FrozenSet[PySMTType]:
+        #pylint: disable=unused-argument
         ftype = cast(types._FunctionType, formula.function_name().symbol_type())
-        return frozenset([ftype.return_type] + list(ftype.param_types))
+        return frozenset(chain([ftype.return_type], ftype.param_types, *args))
+
+    @walkers.handles(op.ARRAY_VALUE)
+    def walk_array_value(self, formula: FNode, args: List[FrozenSet[PySMTType]], **kwargs) -> FrozenSet[PySMTType]:
+        #pylint: disable=unused-argument
+        return frozenset(chain([formula.array_value_index_type()], *args))
 
     @walkers.handles(op.QUANTIFIERS)
     def walk_quantifier(self, formula: FNode, args: List[FrozenSet[PySMTType]], **kwargs) -> FrozenSet[PySMTType]:
